@@ -364,6 +364,19 @@ fn cmd_gen(args: &[String]) -> i32 {
         put(1, p);
     }
     for i in 0..n {
+        if i % 40 == 7 {
+            // well-formed, deeply nested calls (must return, like any well-formed program)
+            let k = r.pick(&[10usize, 26, 30, 60, 100, 200]);
+            let (open, close) = r.pick(&[("%m(", ")"), ("%sysfunc(abs(", "))"), ("%str(", ")"), ("%m(a=", ")"), ("%upcase(", ")"), ("%eval((", "))"), ("%scan(%sysfunc(strip(%str(", "))),1)")]);
+            let s = format!("%put {}{}{};\n", open.repeat(k), "x", close.repeat(k));
+            put(1, &s);
+            continue;
+        }
+        if i % 40 == 27 {
+            let levels = r.pick(&[8usize, 33, 65, 130]);
+            put(1, &gen::grammar::gen_deep_program(&mut r, tier.gcfg(), levels).s);
+            continue;
+        }
         match i % 4 {
             0 | 1 => put(1, &gen::grammar::gen_program(&mut r, tier.gcfg()).s),
             2 => {
